@@ -119,6 +119,28 @@ CASES = [
     ("contains: `any` with `!=`", "mutation", MAP,
      "self.chars().any(|v| v == c)", "self.chars().any(|v| v != c)",
      ["contains_src_eq_model"]),
+    ("line_elements: the spacing step advances by the character width", "mutation", MTS,
+     "                let p = position;\n                position.x += spacing_width;",
+     "                let p = position;\n                position.x += char_width;",
+     ["line_elements_step"]),
+    ("line_elements: a spacing element after the last character too", "mutation", MTS,
+     "add_spacing = next_char.is_some();", "add_spacing = true;",
+     ["line_elements_step"]),
+    ("draw_string_binary: the gap between characters is filled with `On`", "mutation", MTS,
+     "                            BinaryColor::Off,\n                        )?;", "                            BinaryColor::On,\n                        )?;",
+     ["draw_string_binary_unfold"]),
+    ("draw_string_binary: `Done` returns the start position", "mutation", MTS,
+     "LineElement::Done => return Ok(p),", "LineElement::Done => return Ok(position),",
+     ["draw_string_binary_unfold"]),
+    ("draw_string_binary: glyphs right of x = 100 are skipped (a guard on the `Char` arm, not followed by the same pattern)", "unknown", MTS,
+     "                LineElement::Char(c) => {\n", "                LineElement::Char(_) if p.x > 100 => {}\n                LineElement::Char(c) => {\n",
+     []),
+    ("translate: moves the other way", "mutation", TEXT,
+     "            position: self.position + by,\n            ..self.clone()", "            position: self.position - by,\n            ..self.clone()",
+     ["Text_translate_src_eq_model"]),
+    ("draw_string_binary: local `glyph` renamed", "harmless", MTS,
+     "                    let glyph = self.font.glyph(c);\n                    Image::new(&glyph, p).draw(&mut target)?;",
+     "                    let g = self.font.glyph(c);\n                    Image::new(&g, p).draw(&mut target)?;", []),
     ("measure_string: local `bb_width` renamed", "harmless", MTS,
      "        let bb_width = (text.chars().count() as u32", "        let w = (text.chars().count() as u32", []),
     ("measure_string: (second half of the rename)", "skip", MTS, "", "", []),
@@ -142,8 +164,8 @@ CASES = [
     ("draw: `next_position` renamed, `Ok(..)` of a block", "harmless", TEXT,
      "        Ok(next_position)\n", "        Ok({ next_position })\n", []),
     ("lines: local `metrics` renamed in the Right arm", "harmless", TEXT,
-     "                Alignment::Right => {\\n                    let metrics = self.character_style.measure_string(",
-     "                Alignment::Right => {\\n                    let m = self.character_style.measure_string(", []),
+     "                Alignment::Right => {\n                    let metrics = self.character_style.measure_string(",
+     "                Alignment::Right => {\n                    let m = self.character_style.measure_string(", []),
     ("measure_string: a method the prelude does not know (`str::len`)", "unknown", MTS,
      "        let bb_size = Size::new(bb_width, bb_height);", "        let _n = text.len();\n        let bb_size = Size::new(bb_width, bb_height);", []),
     ("lines: a `while` loop (outside the Rust subset)", "unknown", TEXT,
@@ -154,8 +176,8 @@ CASES = [
 # edits that need a second replacement in the same file: (case name) -> [(old, new)]
 EXTRA = {
     "lines: local `metrics` renamed in the Right arm": [
-        ("position - (metrics.next_position - Point::new(1, 0))\\n                }\\n                Alignment::Center",
-         "position - (m.next_position - Point::new(1, 0))\\n                }\\n                Alignment::Center")],
+        ("position - (metrics.next_position - Point::new(1, 0))\n                }\n                Alignment::Center",
+         "position - (m.next_position - Point::new(1, 0))\n                }\n                Alignment::Center")],
     "measure_string: local `bb_width` renamed": [("        let bb_size = Size::new(bb_width, bb_height);", "        let bb_size = Size::new(w, bb_height);")],
     "baseline_offset: the `Top` arm moved to the end of the match": [
         ("            Baseline::Alphabetic => self.font.baseline.saturating_as(),\n", "            Baseline::Alphabetic => self.font.baseline.saturating_as(),\n            Baseline::Top => 0,\n")],
